@@ -91,8 +91,8 @@ TNav ==
           \* the stored entry, or the form the user edited it into (kept or not, depending on how it was left)
           /\ \/ Ev.post = (IF p2 = 0 THEN ty ELSE ShownE(p2))
              \/ (p2 > 0 /\ Ev.post = Entries[N - p2 + 1])
-             \/ (p2 > 0 /\ Ev.post \in lo)
-          /\ pos' = p2 /\ typed' = ty /\ tcur' = tc /\ edited' = ed /\ loose' = lo
+             \/ Ev.post \in lo          \* (also at p2 = 0: the typed text may have changed while the position was not tracked)
+          /\ pos' = p2 /\ typed' = (IF p2 = 0 THEN Ev.post ELSE ty) /\ tcur' = tc /\ edited' = ed /\ loose' = lo
      ELSE IF N = 0
      THEN /\ Ev.post = Ev.pre /\ UNCHANGED <<pos, typed, tcur, edited, loose>>   \* empty history: nothing to show, nothing fails
      ELSE \* not tracked exactly: only the in-progress text or a stored (possibly edited) entry may appear,
